@@ -21,6 +21,10 @@ CHECKS = {
                 text="Same generator as C05 with longer merge chains and all chunk modes; TLC compares dictionaries, every postings list (freq, norm, locations with source fields) and doc values of the re-opened merged segment with the observation functions of the survivors' content."),
 }
 
+CHECKS["C07"] = dict(design="4 C07", technique="TLA+ spec (PostIter) exhaustively explored by TLC; every maximal call sequence replayed on real iterators",
+    note="Trusted: TLC; the harness's comparison of returned postings with the tables TLC emitted. Advance targets obey the interface contract; ReplaceActual only on iterators exposing an actual bitmap, before the first call.",
+    text="TLC enumerates every postings set P and exclusion set E over N documents (4 quick / 5 thorough) and every Next/Advance sequence of length L (3 / 4), checks IterSound and NextOnlyComplete, and emits each maximal call sequence with the expected returns and the expected hit details (ZapData's PostingsOf). The harness executes every sequence on real iterators for built, mmap-opened and merged (single-hit) segments x chunk sizes {1,2,3,N} x detail-flag combinations x access variants (exclusion bitmap, empty bitmap, ReplaceActual, preallocated list/iterator reused from another term or field), comparing doc numbers, freq, norm, locations, Count, ActualBitmap and DocNum1Hit. Bounded-exhaustive, as the property's quantifier asks.")
+
 NA = {}
 for i in range(1, 21):
     pid = "C%02d" % i
